@@ -186,6 +186,8 @@ class Runtime:
             if beh == "inc" and j == 0:
                 p = spec["beh_param"]
                 vals.append(args[p] + 1)
+            elif beh == "pass" and j == 0:
+                vals.append(args[spec["beh_param"]])
             elif beh == "const":
                 vals.append(spec["beh_value"])
             elif beh == "snapshot" and j == 0:
@@ -320,6 +322,8 @@ class Runtime:
         n = len(live)
         if self.decisions:
             i = self.decisions.pop(0) % n
+        elif self.schedule.get("sweep"):
+            i = 0
         else:
             if self._hold_rng is None:
                 import random
